@@ -168,3 +168,38 @@ def run(facts, rep, tier):
                         src |= {o[2] for o in fl.origins(a_, (c, None)) if o[0] == "call"}
             rep.ob("C07.F", "unassign-iterates-all-nodes", src == {"graphs::Graph::get_nodes"},
                    "unassign_nodes tests every node of graph.get_nodes() (%s)" % sorted(src), u.loc())
+    inliner_keeps_annotations(facts, rep, "C07")
+
+
+def inliner_keeps_annotations(facts, rep, P="C07"):
+    """every inlined copy of a node carries the node's annotations: in recursively_inline_graph the annotations read from the
+    source node are put on the node created in this very iteration (not on a node looked up in a mapping, which for a second
+    inlining of the same body is the FIRST copy)"""
+    rid = P + (".A" if P == "C07" else ".I")
+    rep.rule(rid, "the inliner copies annotations onto the copy it has just created: every add_annotation in "
+                  "recursively_inline_graph whose annotation comes from get_annotations of the source node has the result of the "
+                  "add_node_with_type call of the same iteration as its receiver (a Send marker must exist on every inlined copy "
+                  "of a protocol body, not only on the first)")
+    r = facts.body("inline::inline_ops::recursively_inline_graph")
+    if not rep.anchor(rid, "inline::inline_ops::recursively_inline_graph", r):
+        return
+    from .common import copy_helpers
+    fam = [r] + [hb for n_, hb in facts.bodies.items() if hb.kind != "closure" and hb.file == r.file and
+                 any(callee_name(t) == n_ for _, t in r.calls()) and any((callee_name(t2) or "").endswith("Graph::add_node_with_type") for _, t2 in hb.calls())]
+    n = 0
+    for b in fam:
+        fl = Flow(facts, b, {"graphs::Node::add_annotation": [0]})
+        adds = {bb for bb, t in b.calls() if (callee_name(t) or "").endswith("Graph::add_node_with_type") and not b.is_cleanup(bb)}
+        for bb, t in b.calls():
+            if callee_name(t) != "graphs::Node::add_annotation" or b.is_cleanup(bb):
+                continue
+            if not any(o[0] == "call" and o[2] == "graphs::Node::get_annotations" for o in fl.origins(t["args"][1], (bb, None))):
+                continue
+            n += 1
+            recv = {o for o in fl.origins(t["args"][0], (bb, None)) if o[0] == "call"}
+            ok = bool(recv) and all(o[1] in adds for o in recv)
+            rep.ob(rid, "%s|annotation-target#%d" % (b.id.split("::")[-1], n), ok,
+                   "annotations are put on the node created by add_node_with_type in this iteration" if ok else
+                   "annotations are put on a node obtained from %s: for the second inlined copy of a body that is the first copy's "
+                   "node, so the later copies lose their Send markers" % sorted(o[2].split("::")[-1] for o in recv), b.loc(bb))
+    rep.anchor(rid, "recursively_inline_graph|add_annotation fed by get_annotations", n >= 1)
